@@ -1,5 +1,7 @@
 import PrimitivModel.Props.C02.Move
 import PrimitivModel.Lemmas.Adjoint
+import PrimitivModel.Lemmas.MoveAccept
+import PrimitivModel.Props.C11.Move
 /-
 C03 — minibatch law for the kernels of the family.
 
@@ -11,10 +13,15 @@ the single samples, this is "kernel(batch) restricted to sample b = kernel(sampl
 b of the operands)".  The `batch_*` kernels are the only ones that move data
 across samples; their cross-sample specifications are `C02.Move.Fwd.batch_*_spec`.
 
-Backward (`Batch.bwd_fold`): a backward loop whose destination has minibatch size
-1 while the upstream gradient has B samples leaves `gx + Σ_b (per-sample
-backward of sample b of gy)`: the gradient reaching a batch-1 operand is the
-sum over the samples.
+Backward: the gradient reaching an accumulator is `gx` plus the SUM over the
+samples of `gy` of what the entry point, called on that sample alone with a zero
+accumulator, produces — `Batch.<k>_bw_law` at the level of the entry points
+(pick_bw and slice_bw into a batch-1 `gx`; batch_pick_bw and batch_slice_bw, whose
+accumulator keeps its minibatch; each per-sample call is shown to be accepted),
+from the generic `Batch.bwd_fold` and the index identities of each loop nest.
+flip_bw, transpose_bw, permute_dims_bw, max_bw, min_bw require equal minibatch
+sizes (`gy.batch = gx.batch`, so a batch-1 accumulator receives one sample) and
+add to `gx` what they produce on a zero accumulator.
 -/
 namespace Primitiv.C03.Move
 open Primitiv Primitiv.Move Primitiv.MoveShape Primitiv.Spec.Move Primitiv.View3 Finset
@@ -157,12 +164,6 @@ theorem Batch.bwd_fold {R} [AddCommMonoid R] (m : Moves) (B K Vy : Nat) (d0 s0 :
   intro t0 ht0
   rw [hd t0 b (mem_range.mp ht0) (mem_range.mp hb), hs t0 b (mem_range.mp ht0) (mem_range.mp hb)]
 
-/-- `sy` with minibatch size 1: the shape of one sample -/
-def oneSample (s : Shape) : Shape := { s with batch := 1 }
-
-theorem oneSample_wf {s : Shape} (h : WF s) : WF (oneSample s) :=
-  ⟨h.depth_le, h.pos, Nat.one_pos, h.vol, by show s.volume * 1 < W; rw [Nat.mul_one]; exact h.vol_lt⟩
-
 /-- slice_bw: the gradient reaching a batch-1 `gx` from a `gy` with `B` samples is
 the sum over the samples of what the one-sample calls add (`m1` is the loop nest
 of `slice_bw` on one sample of `gy`). -/
@@ -240,19 +241,434 @@ theorem Batch.pick_bw_fold {R} [AddCommMonoid R] {gys gxs : Shape} {ids : List N
       (Vx := lo gxs dim * gxs.get dim * up gxs dim) (ids := ids) ht0 (by rw [← hgb]; exact hb)
     rw [hm, hm1 b hb, hv]; exact this.2.2.2
 
-/-- Unfinished: the same fold law for `inplace_add` (slice_bw on an axis at or
-beyond the depth), `batch_pick_bw` with repeated ids (several samples of `gy`
-added into one sample of `gx`) and the `concat` backward (slice_bw per
-operand), stated for all of them at once as: the result of a backward kernel
-called with a batch-1 `gx` equals `gx` plus the sum over samples of the results
-of the per-sample calls on a zero `gx`. -/
-def Batch.bwd_law_full : Prop :=
-  ∀ (gy gx g : Tensor Int) (dim offset : Nat), WF gy.shape → WF gx.shape → gx.shape.batch = 1 →
-    sliceBw gy dim offset gx = .ok g →
-    ∀ j, j < gx.shape.size → g.data j = gx.data j + ∑ b ∈ range gy.shape.batch,
-      match sliceBw ⟨oneSample gy.shape, fun i => gy.data (i + gy.shape.volume * b), .here⟩ dim offset
-          ⟨gx.shape, fun _ => 0, .here⟩ with
-      | .ok gb => gb.data j
-      | .error _ => 0
+/-- slice_bw on an axis at or beyond the depth (`inplace_add_impl`): the same fold law -/
+theorem Batch.slice_bw_fold_inplace {R} [AddCommMonoid R] {sy sx : Shape} {dim offset : Nat} {m m1 : Moves}
+    (hy : WF sy) (hx : WF sx) (hoff : offset < W) (hbx : sx.batch = 1)
+    (h : Front.sliceBw sy sx dim offset = .ok (.inplaceAdd m))
+    (h1 : Front.sliceBw (oneSample sy) sx dim offset = .ok (.inplaceAdd m1)) (gy gx : Nat → R) (j : Nat) :
+    scatterAdd m.didx m.sidx gy m.count gx j =
+      gx j + ∑ b ∈ range sy.batch,
+        scatterAdd m1.didx m1.sidx (fun i => gy (i + sy.volume * b)) m1.count (fun _ => 0) j := by
+  obtain ⟨hget, _, _, _, _, hp⟩ := Front.sliceBw_plan hy hx hoff h
+  obtain ⟨_, _, _, _, _, hp1⟩ := Front.sliceBw_plan (oneSample_wf hy) hx hoff h1
+  rcases hp with ⟨_, hy1, _, _, hm⟩ | ⟨_, hm⟩
+  swap
+  · cases hm
+  rcases hp1 with ⟨_, _, _, _, hm1⟩ | ⟨_, hm1⟩
+  swap
+  · cases hm1
+  simp only [Front.SliceBwPlan.inplaceAdd.injEq] at hm hm1
+  have hv : sy.volume = lo sx dim * up sx dim := by
+    have v := hy.toView dim
+    have e1 : lo sy dim = lo sx dim := lo_eq_of_get (fun i hi => hget i (by omega))
+    have e2 : up sy dim = up sx dim := up_eq_of_get (fun i hi => hget i (by omega))
+    rw [v.volume, e1, e2, hy1]; ring
+  have hb1 : (oneSample sy).batch = 1 := rfl
+  rw [hb1, hbx] at hm1
+  rw [hbx] at hm
+  have hK : m1.count = lo sx dim * up sx dim := by rw [hm1]; simp [inplaceAddMoves]
+  rw [hK]
+  refine Batch.bwd_fold m sy.batch _ sy.volume (fun _ => m1.didx) (fun _ => m1.sidx) gy gx ?_ ?_ ?_ j
+  · rw [hm]; exact (inplaceAdd_fold_idx (V := lo sx dim * up sx dim) (B := sy.batch) (t0 := 0) (b := 0)
+      (Nat.mul_pos (lo_pos hx dim) (up_pos hx dim)) hy.bpos).1
+  · intro t0 b ht0 hb
+    rw [hm, hm1]; exact (inplaceAdd_fold_idx ht0 hb).2.2.1
+  · intro t0 b ht0 hb
+    rw [hm, hm1, hv]; exact (inplaceAdd_fold_idx ht0 hb).2.2.2
+
+/-! ### the law at the level of the entry points
+
+`sampleT gy b` is sample `b` of `gy` as a tensor of its own, `zeroLike gx` a
+zero accumulator of the shape of `gx`; `dataOr0` reads an element of the
+outcome of a call (the per-sample calls are shown to succeed). -/
+
+def sampleT {α} (gy : Tensor α) (b : Nat) : Tensor α :=
+  ⟨oneSample gy.shape, fun i => gy.data (i + gy.shape.volume * b), .here⟩
+
+def zeroLike {α} [Zero α] (gx : Tensor α) : Tensor α := ⟨gx.shape, fun _ => 0, .here⟩
+
+def dataOr0 {α} [Zero α] (r : R (Tensor α)) (j : Nat) : α :=
+  match r with
+  | .ok g => g.data j
+  | .error _ => 0
+
+/-- what a successful `slice_bw` leaves in `gx` -/
+theorem sliceBw_data {R} [Add R] {gy gx g : Tensor R} {dim offset : Nat} (h : sliceBw gy dim offset gx = .ok g) :
+    gy.loc = .here ∧ gx.loc = .here ∧ ∃ p, Front.sliceBw gy.shape gx.shape dim offset = .ok p ∧
+      g.data = scatterAdd p.moves.didx p.moves.sidx gy.data p.moves.count gx.data := by
+  unfold sliceBw sliceBwWith at h
+  cases hc : checkDevice gy with
+  | error e => simp [hc, bind, Except.bind] at h
+  | ok u =>
+  cases hc2 : checkDevice gx with
+  | error e => simp [hc, hc2, bind, Except.bind] at h
+  | ok u2 =>
+  cases hB : Front.sliceBw gy.shape gx.shape dim offset with
+  | error e => simp [hc, hc2, hB, bind, Except.bind] at h
+  | ok p =>
+  simp only [hc, hc2, hB, bind, Except.bind] at h
+  obtain ⟨_, rfl⟩ := runAdd_inv h
+  exact ⟨checkDevice_inv hc, checkDevice_inv hc2, p, rfl, rfl⟩
+
+theorem sliceBw_data_ok {R} [Add R] {gy gx : Tensor R} {dim offset : Nat} {p : Front.SliceBwPlan}
+    (hy : WF gy.shape) (hx : WF gx.shape) (hoff : offset < W) (hl1 : gy.loc = .here) (hl2 : gx.loc = .here)
+    (hp : Front.sliceBw gy.shape gx.shape dim offset = .ok p) :
+    sliceBw gy dim offset gx =
+      .ok ⟨gx.shape, scatterAdd p.moves.didx p.moves.sidx gy.data p.moves.count gx.data, .here⟩ := by
+  unfold sliceBw sliceBwWith
+  simp only [checkDevice_ok hl1, checkDevice_ok hl2, hp, bind, Except.bind]
+  exact runAdd_ok (C11.Move.Kernel.slice_bw_in_bounds hy hx hoff hp)
+
+/-- **slice_bw** (also the backward of `concat`): the gradient reaching a
+batch-1 `gx` is `gx` plus the sum over the samples of `gy` of what the call on
+that sample alone adds to a zero accumulator; and each of these calls is accepted. -/
+theorem Batch.slice_bw_law {R} [AddCommMonoid R] {gy gx g : Tensor R} {dim offset : Nat} (hy : WF gy.shape)
+    (hx : WF gx.shape) (hoff : offset < W) (hbx : gx.shape.batch = 1) (h : sliceBw gy dim offset gx = .ok g) :
+    (∀ b, b < gy.shape.batch → ∃ gb, sliceBw (sampleT gy b) dim offset (zeroLike gx) = .ok gb) ∧
+    ∀ j, g.data j = gx.data j +
+      ∑ b ∈ range gy.shape.batch, dataOr0 (sliceBw (sampleT gy b) dim offset (zeroLike gx)) j := by
+  obtain ⟨_, _, p, hp, hg⟩ := sliceBw_data h
+  obtain ⟨p1, hp1⟩ := Front.sliceBw_oneSample hp
+  have hs : ∀ b, sliceBw (sampleT gy b) dim offset (zeroLike gx) =
+      .ok ⟨gx.shape, scatterAdd p1.moves.didx p1.moves.sidx (fun i => gy.data (i + gy.shape.volume * b))
+        p1.moves.count (fun _ => 0), .here⟩ :=
+    fun b => sliceBw_data_ok (gy := sampleT gy b) (gx := zeroLike gx) (oneSample_wf hy) hx hoff rfl rfl hp1
+  refine ⟨fun b _ => ⟨_, hs b⟩, fun j => ?_⟩
+  rw [hg]
+  simp only [hs, dataOr0]
+  obtain ⟨_, _, _, _, _, hk⟩ := Front.sliceBw_plan hy hx hoff hp
+  obtain ⟨_, _, _, _, _, hk1⟩ := Front.sliceBw_plan (oneSample_wf hy) hx hoff hp1
+  rcases hk with ⟨hd, _, _, _, rfl⟩ | ⟨hd, rfl⟩
+  · rcases hk1 with ⟨_, _, _, _, rfl⟩ | ⟨hd1, _⟩
+    · exact Batch.slice_bw_fold_inplace hy hx hoff hbx hp hp1 gy.data gx.data j
+    · omega
+  · rcases hk1 with ⟨hd1, _⟩ | ⟨_, rfl⟩
+    · omega
+    · exact Batch.slice_bw_fold hy hx hoff hbx hd hp hp1 gy.data gx.data j
+
+theorem pickBw_data_ok {R} [Add R] {gy gx : Tensor R} {ids : List Nat} {dim : Nat} {m : Moves}
+    (hy : WF gy.shape) (hx : WF gx.shape) (hlen : ids.length < W) (hl1 : gy.loc = .here) (hl2 : gx.loc = .here)
+    (hp : Front.pickBw gy.shape gx.shape ids dim = .ok m) :
+    pickBw gy ids dim gx = .ok ⟨gx.shape, scatterAdd m.didx m.sidx gy.data m.count gx.data, .here⟩ := by
+  unfold pickBw
+  have ⟨hb, hi⟩ := C11.Move.Kernel.pick_bw_in_bounds hy hx hlen hp
+  simp only [checkDevice_ok hl1, checkDevice_ok hl2, hp, bind, Except.bind, hi, Bool.not_true, Bool.false_eq_true, if_false]
+  exact runAdd_ok hb
+
+/-- **pick_bw**: the gradient reaching a batch-1 `gx` is `gx` plus the sum over the
+samples `b` of what `pick_bw` on sample `b` of `gy` with the single id `ids[b]`
+(`ids[0]` when there is only one id) adds to a zero accumulator. -/
+theorem Batch.pick_bw_law {R} [AddCommMonoid R] {gy gx g : Tensor R} {ids : List Nat} {dim : Nat} (hy : WF gy.shape)
+    (hx : WF gx.shape) (hlen : ids.length < W) (hbx : gx.shape.batch = 1) (h : pickBw gy ids dim gx = .ok g) :
+    let idOf := fun b => ids.getD (b * b2n (ids.length > 1)) 0
+    (∀ b, b < gy.shape.batch → ∃ gb, pickBw (sampleT gy b) [idOf b] dim (zeroLike gx) = .ok gb) ∧
+    ∀ j, g.data j = gx.data j +
+      ∑ b ∈ range gy.shape.batch, dataOr0 (pickBw (sampleT gy b) [idOf b] dim (zeroLike gx)) j := by
+  intro idOf
+  obtain ⟨_, _, m, hp, _, rfl⟩ := pickBw_inv h
+  obtain ⟨_, hpos, hcomp, hids, hgb, _, _, _, _⟩ := Front.pickBw_plan hy hx hlen hp
+  -- the per-sample plans
+  have hmem : ∀ b, b < gy.shape.batch → idOf b ∈ ids := by
+    intro b hb
+    rw [hgb] at hb
+    have ⟨h1, _⟩ := pick_id_ok (nx := gx.shape.get dim) hpos hcomp hids hx.bpos hb
+    have : idOf b = ids[b * b2n (ids.length > 1)]'h1 := by
+      simp [idOf, List.getD, List.getElem?_eq_getElem h1]
+    rw [this]; exact List.getElem_mem h1
+  let m1 : Nat → Moves := fun b =>
+    (pickMoves (max gx.shape.batch 1) ((if gx.shape.batch = 1 then 0 else 1) * (lo gx.shape dim * gx.shape.get dim * up gx.shape dim))
+      (b2n ([idOf b].length > 1)) (lo gx.shape dim) (lo gx.shape dim * gx.shape.get dim) (up gx.shape dim) [idOf b]).swap
+  have hp1 : ∀ b, b < gy.shape.batch → Front.pickBw (oneSample gy.shape) gx.shape [idOf b] dim = .ok (m1 b) := by
+    intro b hb
+    obtain ⟨m', hm'⟩ := Front.pickBw_oneSample hx hbx hp (hmem b hb)
+    obtain ⟨_, _, _, _, _, _, e, _, _⟩ := Front.pickBw_plan (oneSample_wf hy) hx (by simp) hm'
+    rw [hm', e]; rfl
+  have hs : ∀ b, b < gy.shape.batch → pickBw (sampleT gy b) [idOf b] dim (zeroLike gx) =
+      .ok ⟨gx.shape, scatterAdd (m1 b).didx (m1 b).sidx (fun i => gy.data (i + gy.shape.volume * b))
+        (m1 b).count (fun _ => 0), .here⟩ :=
+    fun b hb => pickBw_data_ok (gy := sampleT gy b) (gx := zeroLike gx) (oneSample_wf hy) hx (by simp) rfl rfl (hp1 b hb)
+  refine ⟨fun b hb => ⟨_, hs b hb⟩, fun j => ?_⟩
+  have hfold := Batch.pick_bw_fold hy hx hlen hbx hp hp1 gy.data gx.data j
+  simp only at hfold ⊢
+  rw [hfold]
+  congr 1
+  apply sum_congr rfl
+  intro b hb
+  rw [hs b (mem_range.mp hb)]
+  simp only [dataOr0]
+  have hc : (m1 b).count = lo gx.shape dim * up gx.shape dim := by
+    simp only [m1, Moves.swap, pickMoves, hbx]; simp; ring
+  rw [hc]
+
+theorem batchPickBw_data_ok {R} [Add R] {gy gx : Tensor R} {ids : List Nat} {m : Moves}
+    (hy : WF gy.shape) (hx : WF gx.shape) (hlen : ids.length < W) (hl1 : gy.loc = .here) (hl2 : gx.loc = .here)
+    (hp : Front.batchPickBw gy.shape gx.shape ids = .ok m) :
+    batchPickBw gy ids gx = .ok ⟨gx.shape, scatterAdd m.didx m.sidx gy.data m.count gx.data, .here⟩ := by
+  unfold batchPickBw
+  have ⟨hb, hle⟩ := C11.Move.Kernel.batch_pick_bw_in_bounds hy hx hlen hp
+  simp only [checkDevice_ok hl1, checkDevice_ok hl2, hp, bind, Except.bind]
+  rw [if_neg (by omega)]
+  exact runAdd_ok hb
+
+/-- **batch_pick_bw** (the accumulator keeps its minibatch; several samples of `gy`
+may go to the same sample of `gx`): `gx` plus the sum over the samples `b` of `gy`
+of what `batch_pick_bw` on that sample with the single id `ids[b]` adds. -/
+theorem Batch.batch_pick_bw_law {R} [AddCommMonoid R] {gy gx g : Tensor R} {ids : List Nat} (hy : WF gy.shape)
+    (hx : WF gx.shape) (hlen : ids.length < W) (h : batchPickBw gy ids gx = .ok g) :
+    gy.shape.batch = ids.length ∧
+    (∀ b, b < ids.length → ∃ gb, batchPickBw (sampleT gy b) [ids.getD b 0] (zeroLike gx) = .ok gb) ∧
+    ∀ j, g.data j = gx.data j +
+      ∑ b ∈ range ids.length, dataOr0 (batchPickBw (sampleT gy b) [ids.getD b 0] (zeroLike gx)) j := by
+  obtain ⟨_, _, m, hp, _, rfl⟩ := batchPickBw_inv h
+  obtain ⟨_, _, hgb, hgg, hm, _, _⟩ := Front.batchPickBw_plan hy hx hlen hp
+  have hvol : gy.shape.volume = gx.shape.volume := volume_eq_of_get hy hx hgg
+  have hmem : ∀ b, b < ids.length → ids.getD b 0 ∈ ids := by
+    intro b hb
+    have : ids.getD b 0 = ids[b] := by simp [List.getD, List.getElem?_eq_getElem hb]
+    rw [this]; exact List.getElem_mem hb
+  have hp1 : ∀ b, b < ids.length → Front.batchPickBw (oneSample gy.shape) gx.shape [ids.getD b 0] =
+      .ok (batchPickMoves 1 gx.shape.volume [ids.getD b 0]).swap := by
+    intro b hb
+    obtain ⟨m', hm', e⟩ := Front.batchPickBw_oneSample hx hp (hmem b hb)
+    rw [hm', e]
+  have hs : ∀ b, b < ids.length → batchPickBw (sampleT gy b) [ids.getD b 0] (zeroLike gx) =
+      .ok ⟨gx.shape, scatterAdd (batchPickMoves 1 gx.shape.volume [ids.getD b 0]).swap.didx
+        (batchPickMoves 1 gx.shape.volume [ids.getD b 0]).swap.sidx (fun i => gy.data (i + gy.shape.volume * b))
+        (batchPickMoves 1 gx.shape.volume [ids.getD b 0]).swap.count (fun _ => 0), .here⟩ :=
+    fun b hb => batchPickBw_data_ok (gy := sampleT gy b) (gx := zeroLike gx) (oneSample_wf hy) hx (by simp) rfl rfl (hp1 b hb)
+  refine ⟨hgb, fun b hb => ⟨_, hs b hb⟩, fun j => ?_⟩
+  simp only
+  rw [hm, Batch.bwd_fold (batchPickMoves ids.length gx.shape.volume ids).swap ids.length gx.shape.volume gx.shape.volume
+    (fun b => (batchPickMoves 1 gx.shape.volume [ids.getD b 0]).swap.didx)
+    (fun b => (batchPickMoves 1 gx.shape.volume [ids.getD b 0]).swap.sidx) gy.data gx.data
+    (batchPickBw_fold_idx (V := gx.shape.volume) (t0 := 0) (b := 0) (ids := ids) hx.vol_pos).1
+    (fun t0 b ht0 _ => (batchPickBw_fold_idx ht0).2.2.1) (fun t0 b ht0 _ => (batchPickBw_fold_idx ht0).2.2.2) j]
+  congr 1
+  apply sum_congr rfl
+  intro b hb
+  rw [hs b (mem_range.mp hb)]
+  simp only [dataOr0, hvol]
+  have hc : (batchPickMoves 1 gx.shape.volume [ids.getD b 0]).swap.count = gx.shape.volume := by
+    simp [Moves.swap, batchPickMoves]
+  rw [hc]
+
+theorem batchSliceBw_data_ok {R} [Add R] {gy gx : Tensor R} {offset : Nat} {m : Moves}
+    (hy : WF gy.shape) (hx : WF gx.shape) (hoff : offset < W) (hl1 : gy.loc = .here) (hl2 : gx.loc = .here)
+    (hp : Front.batchSliceBw gy.shape gx.shape offset = .ok m) :
+    batchSliceBw gy offset gx = .ok ⟨gx.shape, scatterAdd m.didx m.sidx gy.data m.count gx.data, .here⟩ := by
+  unfold batchSliceBw batchSliceBwWith
+  simp only [checkDevice_ok hl1, checkDevice_ok hl2, hp, bind, Except.bind]
+  exact runAdd_ok (C11.Move.Kernel.batch_slice_bw_in_bounds hy hx hoff hp)
+
+/-- **batch_slice_bw**: `gx` plus the sum over the samples `b` of `gy` of what
+`batch_slice_bw` on that sample with offset `offset + b` adds. -/
+theorem Batch.batch_slice_bw_law {R} [AddCommMonoid R] {gy gx g : Tensor R} {offset : Nat} (hy : WF gy.shape)
+    (hx : WF gx.shape) (hoff : offset < W) (h : batchSliceBw gy offset gx = .ok g) :
+    offset + gy.shape.batch ≤ gx.shape.batch ∧
+    (∀ b, b < gy.shape.batch → ∃ gb, batchSliceBw (sampleT gy b) (offset + b) (zeroLike gx) = .ok gb) ∧
+    ∀ j, g.data j = gx.data j +
+      ∑ b ∈ range gy.shape.batch, dataOr0 (batchSliceBw (sampleT gy b) (offset + b) (zeroLike gx)) j := by
+  unfold batchSliceBw batchSliceBwWith at h
+  obtain ⟨_, _, m, hp, _, rfl⟩ := bw_inv h
+  obtain ⟨_, hle, hvol, hm, _, _⟩ := Front.batchSliceBw_plan hy hx hoff hp
+  have hbW := Front.batch_lt hx
+  have hp1 : ∀ b, b < gy.shape.batch → Front.batchSliceBw (oneSample gy.shape) gx.shape (offset + b) =
+      .ok (batchSliceBwMoves gx.shape.volume 1 (offset + b)) :=
+    fun b hb => Front.batchSliceBw_oneSample hy hx hoff hp hb
+  have hs : ∀ b, b < gy.shape.batch → batchSliceBw (sampleT gy b) (offset + b) (zeroLike gx) =
+      .ok ⟨gx.shape, scatterAdd (batchSliceBwMoves gx.shape.volume 1 (offset + b)).didx
+        (batchSliceBwMoves gx.shape.volume 1 (offset + b)).sidx (fun i => gy.data (i + gy.shape.volume * b))
+        (batchSliceBwMoves gx.shape.volume 1 (offset + b)).count (fun _ => 0), .here⟩ :=
+    fun b hb => batchSliceBw_data_ok (gy := sampleT gy b) (gx := zeroLike gx) (oneSample_wf hy) hx (by omega) rfl rfl (hp1 b hb)
+  refine ⟨hle, fun b hb => ⟨_, hs b hb⟩, fun j => ?_⟩
+  simp only
+  have hfit : ∀ b, b < gy.shape.batch → gx.shape.volume * (offset + b) < W := by
+    intro b hb
+    calc gx.shape.volume * (offset + b) ≤ gx.shape.volume * gx.shape.batch := Nat.mul_le_mul_left _ (by omega)
+      _ < W := hx.fits
+  rw [hm, Batch.bwd_fold (batchSliceBwMoves gx.shape.volume gy.shape.batch offset) gy.shape.batch gx.shape.volume
+    gx.shape.volume (fun b => (batchSliceBwMoves gx.shape.volume 1 (offset + b)).didx)
+    (fun b => (batchSliceBwMoves gx.shape.volume 1 (offset + b)).sidx) gy.data gx.data
+    (by simp only [batchSliceBwMoves]; ring)
+    (fun t0 b _ hb => (batchSliceBw_fold_idx (B := gy.shape.batch) (t0 := t0) (hfit b hb)).2.2.1)
+    (fun t0 b _ hb => (batchSliceBw_fold_idx (B := gy.shape.batch) (t0 := t0) (hfit b hb)).2.2.2) j]
+  congr 1
+  apply sum_congr rfl
+  intro b hb
+  rw [hs b (mem_range.mp hb)]
+  simp only [dataOr0, hvol]
+  have hc : (batchSliceBwMoves gx.shape.volume 1 (offset + b)).count = gx.shape.volume := by
+    simp [batchSliceBwMoves]
+  rw [hc]
+
+/-! ### backward kernels whose operands all have the same minibatch size
+
+flip_bw, transpose_bw, permute_dims_bw, max_bw, min_bw: the guard forces `gy`
+and `gx` to have the same number of samples, so a batch-1 accumulator receives
+exactly one sample (the sum over samples has one term), and the kernel ADDS:
+the result is `gx` plus what the same call leaves in a zero accumulator. -/
+
+theorem scatterAdd_zero_split {R} [AddCommMonoid R] (d s : Nat → Nat) (gy gx : Nat → R) (n j : Nat) :
+    scatterAdd d s gy n gx j = gx j + scatterAdd d s gy n (fun _ => 0) j := by
+  rw [scatterAdd_apply, scatterAdd_apply, zero_add]
+
+theorem Batch.flip_bw_law {R} [AddCommMonoid R] {gy gx g : Tensor R} {dim : Nat} (hy : WF gy.shape) (hx : WF gx.shape)
+    (h : flipBw gy dim gx = .ok g) :
+    gy.shape.batch = gx.shape.batch ∧
+    ∃ g0, flipBw gy dim (zeroLike gx) = .ok g0 ∧ ∀ j, g.data j = gx.data j + g0.data j := by
+  unfold flipBw at h
+  obtain ⟨hl1, _, m, hF, hb, rfl⟩ := bw_inv h
+  have hbatch : gy.shape.batch = gx.shape.batch := by
+    unfold Front.flipBw at hF
+    split at hF
+    · cases hF
+    · rename_i he; exact (eq_get (Front.not_not_eq he)).2
+  refine ⟨hbatch, ⟨gx.shape, scatterAdd m.didx m.sidx gy.data m.count (fun _ => 0), .here⟩, ?_, fun j => scatterAdd_zero_split _ _ _ _ _ _⟩
+  unfold flipBw
+  simp only [checkDevice_ok hl1, checkDevice_ok (x := zeroLike gx) rfl, bind, Except.bind]
+  rw [show (zeroLike gx).shape = gx.shape from rfl, hF]
+  exact runAdd_ok (gx := zeroLike gx) hb
+
+theorem Batch.permute_dims_bw_law {R} [AddCommMonoid R] {x y gy gx g : Tensor R} {perm : List Nat} (hx : WF x.shape)
+    (hy : WF y.shape) (hgy : WF gy.shape) (hgx : WF gx.shape) (h : permuteBw x y gy perm gx = .ok g) :
+    gy.shape.batch = gx.shape.batch ∧
+    ∃ g0, permuteBw x y gy perm (zeroLike gx) = .ok g0 ∧ ∀ j, g.data j = gx.data j + g0.data j := by
+  unfold permuteBw at h
+  cases hc1 : checkDevice x with
+  | error e => simp [hc1, bind, Except.bind] at h
+  | ok u1 =>
+  cases hc2 : checkDevice y with
+  | error e => simp [hc1, hc2, bind, Except.bind] at h
+  | ok u2 =>
+  cases hc3 : checkDevice gy with
+  | error e => simp [hc1, hc2, hc3, bind, Except.bind] at h
+  | ok u3 =>
+  cases hc4 : checkDevice gx with
+  | error e => simp [hc1, hc2, hc3, hc4, bind, Except.bind] at h
+  | ok u4 =>
+  cases hF : Front.permuteBw x.shape y.shape gy.shape gx.shape perm with
+  | error e => simp [hc1, hc2, hc3, hc4, hF, bind, Except.bind] at h
+  | ok m =>
+  simp only [hc1, hc2, hc3, hc4, hF, bind, Except.bind] at h
+  obtain ⟨hb, rfl⟩ := runAdd_inv h
+  obtain ⟨m', hFw, _, e1, e2⟩ := permuteBw_plan hx hy hgy hgx hF
+  have hbatch : gy.shape.batch = gx.shape.batch := by
+    rw [e2, e1]; exact (permuteFw_plan hx hFw).2.2.2.1
+  refine ⟨hbatch, ⟨gx.shape, scatterAdd m.didx m.sidx gy.data m.count (fun _ => 0), .here⟩, ?_, fun j => scatterAdd_zero_split _ _ _ _ _ _⟩
+  unfold permuteBw
+  simp only [hc1, hc2, hc3, checkDevice_ok (x := zeroLike gx) rfl, bind, Except.bind]
+  rw [show (zeroLike gx).shape = gx.shape from rfl, hF]
+  exact runAdd_ok (gx := zeroLike gx) hb
+
+theorem Batch.transpose_bw_law {R} [AddCommMonoid R] {x y gy gx g : Tensor R} {raw : Nat → R} (hx : WF x.shape)
+    (hgy : WF gy.shape) (hgx : WF gx.shape) (h : transposeBw x y gy gx raw = .ok g) :
+    gy.shape.batch = gx.shape.batch ∧
+    ∃ g0, transposeBw x y gy (zeroLike gx) raw = .ok g0 ∧ ∀ j, g.data j = gx.data j + g0.data j := by
+  unfold transposeBw at h
+  cases hc1 : checkDevice x with
+  | error e => simp [hc1, bind, Except.bind] at h
+  | ok u1 =>
+  cases hc2 : checkDevice y with
+  | error e => simp [hc1, hc2, bind, Except.bind] at h
+  | ok u2 =>
+  cases hc3 : checkDevice gy with
+  | error e => simp [hc1, hc2, hc3, bind, Except.bind] at h
+  | ok u3 =>
+  cases hc4 : checkDevice gx with
+  | error e => simp [hc1, hc2, hc3, hc4, bind, Except.bind] at h
+  | ok u4 =>
+  cases hG : Front.transposeBwGuard x.shape y.shape gy.shape gx.shape with
+  | error e => simp [hc1, hc2, hc3, hc4, hG, bind, Except.bind] at h
+  | ok u5 =>
+  cases hT : transposeFw gy raw with
+  | error e => simp [hc1, hc2, hc3, hc4, hG, hT, bind, Except.bind] at h
+  | ok t =>
+  simp only [hc1, hc2, hc3, hc4, hG, hT, bind, Except.bind] at h
+  obtain ⟨hb, rfl⟩ := runAdd_inv h
+  have hbatch : gy.shape.batch = gx.shape.batch := by
+    unfold Front.transposeBwGuard at hG
+    split at hG
+    · cases hG
+    rename_i hc
+    simp only [Bool.or_eq_true, not_or] at hc
+    have c1 := Front.not_not_eq hc.1
+    have c2 := Front.not_not_eq hc.2
+    cases hS : ShapeOps.transpose x.shape with
+    | error e => simp [hS, bind, Except.bind] at hG
+    | ok s =>
+      simp only [hS, bind, Except.bind] at hG
+      split at hG
+      · cases hG
+      rename_i hc3'
+      have c3 := Front.not_not_eq hc3'
+      have hsb : s.batch = x.shape.batch := by
+        unfold ShapeOps.transpose at hS
+        split at hS
+        · cases hS
+        · exact (new_ok hS).2.1
+      rw [← (eq_get c2).2, (eq_get c3).2, hsb, (eq_get c1).2]
+  refine ⟨hbatch, ⟨gx.shape, scatterAdd _ _ t.data _ (fun _ => 0), .here⟩, ?_, fun j => scatterAdd_zero_split _ _ _ _ _ _⟩
+  unfold transposeBw
+  simp only [hc1, hc2, hc3, checkDevice_ok (x := zeroLike gx) rfl, bind, Except.bind]
+  rw [show (zeroLike gx).shape = gx.shape from rfl, hG]
+  simp only [hT]
+  exact runAdd_ok (gx := zeroLike gx) hb
+
+theorem selectAdd_zero_split {R} [AddCommMonoid R] [DecidableEq R] (r : Reduce) (x y gy gx : Nat → R) (n o : Nat) :
+    selectAdd r x y gy n gx o = gx o + selectAdd r x y gy n (fun _ => 0) o := by
+  rw [selectAdd_apply, selectAdd_apply, zero_add]
+
+theorem Batch.max_bw_law {R} [AddCommMonoid R] [DecidableEq R] {x y gy gx g : Tensor R} {dim : Nat} (hx : WF x.shape)
+    (hy : WF y.shape) (hgy : WF gy.shape) (hgx : WF gx.shape) (h : maxBw x y gy dim gx = .ok g) :
+    gy.shape.batch = gx.shape.batch ∧
+    ∃ g0, maxBw x y gy dim (zeroLike gx) = .ok g0 ∧ ∀ j, g.data j = gx.data j + g0.data j := by
+  unfold maxBw at h
+  cases hc1 : checkDevice x with
+  | error e => simp [hc1, bind, Except.bind] at h
+  | ok u1 =>
+  cases hc2 : checkDevice y with
+  | error e => simp [hc1, hc2, bind, Except.bind] at h
+  | ok u2 =>
+  cases hc3 : checkDevice gy with
+  | error e => simp [hc1, hc2, hc3, bind, Except.bind] at h
+  | ok u3 =>
+  cases hc4 : checkDevice gx with
+  | error e => simp [hc1, hc2, hc3, hc4, bind, Except.bind] at h
+  | ok u4 =>
+  cases hF : Front.maxBw x.shape y.shape gy.shape gx.shape dim with
+  | error e => simp [hc1, hc2, hc3, hc4, hF, bind, Except.bind] at h
+  | ok r =>
+  simp only [hc1, hc2, hc3, hc4, hF, bind, Except.bind] at h
+  split at h
+  · cases h
+  rename_i hchk
+  simp only [pure, Except.pure, Except.ok.injEq] at h
+  subst h
+  have hbatch : gy.shape.batch = gx.shape.batch := by
+    unfold Front.maxBw at hF
+    cases hS : x.shape.resizeDim dim 1 with
+    | error e => simp [hS, bind, Except.bind] at hF
+    | ok s =>
+      simp only [hS, bind, Except.bind] at hF
+      split at hF
+      · cases hF
+      rename_i hc
+      simp only [Bool.or_eq_true, not_or] at hc
+      have c1 := Front.not_not_eq hc.1.1
+      have c3 := Front.not_not_eq hc.2
+      have ⟨_, _, _, hsb, _, _⟩ := resizeDim_ok hx hS
+      rw [(eq_get c3).2, hsb, (eq_get c1).2]
+  refine ⟨hbatch, ⟨gx.shape, selectAdd r x.data y.data gy.data r.rep (fun _ => 0), .here⟩, ?_, fun j => selectAdd_zero_split _ _ _ _ _ _ _⟩
+  unfold maxBw
+  simp only [hc1, hc2, hc3, checkDevice_ok (x := zeroLike gx) rfl, bind, Except.bind]
+  rw [show (zeroLike gx).shape = gx.shape from rfl, hF]
+  simp only
+  rw [if_neg hchk]; rfl
+
+theorem Batch.min_bw_law {R} [AddCommMonoid R] [DecidableEq R] {x y gy gx g : Tensor R} {dim : Nat} (hx : WF x.shape)
+    (hy : WF y.shape) (hgy : WF gy.shape) (hgx : WF gx.shape) (h : minBw x y gy dim gx = .ok g) :
+    gy.shape.batch = gx.shape.batch ∧
+    ∃ g0, minBw x y gy dim (zeroLike gx) = .ok g0 ∧ ∀ j, g.data j = gx.data j + g0.data j :=
+  Batch.max_bw_law hx hy hgy hgx h
 
 end Primitiv.C03.Move
